@@ -157,6 +157,183 @@ theorem C30_newest (ranges : List Int) (excl : Excl) (ms r : List Meta)
             cases he : excl last.id <;> simp [he] at hb2 ⊢ <;> exact hb2
           exact List.singleton_sublist.mpr this
 
+
+/-! ## Clause 5: a multi-block plan over non-overlapping blocks fits one aligned configured range -/
+
+/-- C30, clause "always fits into one configured time range" — stronger than stated: alignment of the
+    input is not needed, only that the planner did not take the overlap branch (which holds for every
+    non-overlapping group, see `C30_one_range_nonOverlapping`), that the input is ordered by min time
+    (`Planner.Plan`'s precondition) and that the ranges are positive. -/
+theorem C30_one_range (ranges : List Int) (excl : Excl) (ms r : List Meta)
+    (hpos : ∀ iv ∈ ranges.tail, 0 < iv) (hs : SortedByMin ms)
+    (hov : selectOverlapping (notExcluded excl ms) = [])
+    (h : plan ranges excl ms = some r) (h2 : 2 ≤ r.length) :
+    ∃ iv ∈ ranges.tail, ∃ k : Int, ∀ b ∈ r, iv * k ≤ b.min ∧ b.max ≤ iv * k + iv := by
+  unfold plan at h
+  simp only [hov, List.isEmpty_nil, Bool.not_true, Bool.false_eq_true, if_false] at h
+  split at h
+  · simp at h
+  · split at h
+    · simp at h
+    · rename_i r' hr'
+      split at h
+      · rename_i hne
+        simp only [Option.some.injEq] at h
+        subst h
+        have hne' : r' ≠ [] := by intro h0; simp [h0] at hne
+        obtain ⟨iv, hiv, p, hp, hsub⟩ := selectMetas_from_part ranges excl _ _ hr' hne'
+        have hsd : SortedByMin ms.dropLast := List.Pairwise.sublist (List.dropLast_sublist ms) hs
+        obtain ⟨k, hk⟩ := splitByRange_fits ms.dropLast iv (hpos iv hiv) hsd p hp
+        exact ⟨iv, hiv, k, fun b hb => hk b (hsub.subset hb)⟩
+      · rcases tombScan_spec ranges _ r h with h0 | ⟨b, _, rfl, _, _⟩
+        · simp [h0] at h2
+        · simp at h2
+
+theorem C30_one_range_nonOverlapping (ranges : List Int) (excl : Excl) (ms r : List Meta)
+    (hpos : ∀ iv ∈ ranges.tail, 0 < iv) (hs : SortedByMin ms) (hno : NonOverlapping ms)
+    (h : plan ranges excl ms = some r) (h2 : 2 ≤ r.length) :
+    ∃ iv ∈ ranges.tail, ∃ k : Int, ∀ b ∈ r, iv * k ≤ b.min ∧ b.max ≤ iv * k + iv :=
+  C30_one_range ranges excl ms r hpos hs
+    (selectOverlapping_nil_of_nonOverlapping _ (nonOverlapping_notExcluded excl ms hno)) h h2
+
+/-! ## Convergence: plan / apply reaches a fixpoint within `|blocks| + |blocks with many tombstones|` rounds -/
+
+def outOfFuel : Outcome → Bool
+  | .outOfFuel _ _ => true
+  | _ => false
+
+theorem iterate_terminates (ranges : List Int) (excl : Excl) : ∀ (fuel newId : Nat) (ms : List Meta),
+    measure ms < fuel → outOfFuel (iterate ranges excl fuel newId ms) = false
+  | 0, _, _, h => by omega
+  | fuel + 1, newId, ms, h => by
+    unfold iterate
+    split
+    · rfl
+    · rfl
+    · rename_i p hnil hplan
+      have hspec := plan_spec ranges excl ms p hplan
+      have hp : 2 ≤ p.length ∨ ∃ b, p = [b] ∧ manyTombstones b = true := by
+        rcases hspec.2.2 with h0 | h2 | ⟨b, hb, ht, _⟩
+        · exact absurd h0 (by intro h0; exact hnil h0)
+        · exact Or.inl h2
+        · exact Or.inr ⟨b, hb, ht⟩
+      have hm := applyPlan_measure newId p ms hspec.1 hp
+      have ih := iterate_terminates ranges excl fuel (newId + 1) (applyPlan newId p ms) (by omega)
+      split <;> simp_all [outOfFuel]
+
+/-- C30, "repeatedly planning and applying plans ends after finitely many steps": for every group
+    (overlapping or not, any marks, any ranges) at most 2·n rounds. -/
+theorem C30_terminates (ranges : List Int) (excl : Excl) (newId : Nat) (ms : List Meta) :
+    outOfFuel (iterate ranges excl (2 * ms.length + 1) newId ms) = false := by
+  apply iterate_terminates
+  have := List.countP_le_length (p := manyTombstones) (l := ms)
+  unfold measure
+  omega
+
+/-! ## The two wrapping planners -/
+
+/-- `largeTotalIndexSizeFilter.plan`: the returned plan contains no block that was excluded before
+    the call or marked by it -/
+theorem sizePlan_spec (ranges : List Int) (limit : Int) : ∀ (fuel : Nat) (excl : Excl) (marked : List Nat)
+    (ms p : List Meta) (mk : List Nat), (∀ i ∈ marked, excl i = true) →
+    sizePlan ranges limit fuel excl marked ms = .ok p mk →
+    (∀ b ∈ p, excl b.id = false ∧ b.id ∉ mk) ∧ (∀ i ∈ marked, i ∈ mk)
+  | 0, _, _, _, _, _, _, h => by simp [sizePlan] at h
+  | fuel + 1, excl, marked, ms, p, mk, hm, h => by
+    unfold sizePlan at h
+    split at h
+    · simp at h
+    · rename_i p' hplan
+      split at h
+      · simp only [SizeOutcome.ok.injEq] at h
+        obtain ⟨rfl, rfl⟩ := h
+        refine ⟨fun b hb => ?_, fun i hi => hi⟩
+        have hex := C30_no_excluded ranges excl ms p' hplan b hb
+        refine ⟨hex, fun hin => ?_⟩
+        have := hm b.id hin
+        simp [hex] at this
+      · rename_i big hbig
+        have ih := sizePlan_spec ranges limit fuel (fun i => i = big.id || excl i) (marked ++ [big.id]) ms p mk
+          (by
+            intro i hi
+            rcases List.mem_append.mp hi with hi | hi
+            · simp [hm i hi]
+            · simp at hi; simp [hi]) h
+        refine ⟨fun b hb => ?_, fun i hi => ih.2 i (List.mem_append_left _ hi)⟩
+        have := ih.1 b hb
+        simp only [Bool.or_eq_false_iff, decide_eq_false_iff_not] at this
+        exact ⟨this.1.2, this.2⟩
+
+/-- `verticalCompactionDownsampleFilter.Plan` (repaired): the returned plan contains no block marked
+    no-compact — neither one known to the planner, nor one marked during this very call. -/
+theorem vertPlan_spec (ranges : List Int) (limit : Int) (base : Excl) : ∀ (fuel : Nat) (extra marked : List Nat)
+    (ms p : List Meta) (mk : List Nat), (∀ i ∈ marked, i ∈ extra) →
+    vertPlan true ranges limit base fuel extra marked ms = .ok p mk →
+    ∀ b ∈ p, base b.id = false ∧ b.id ∉ mk
+  | 0, _, _, _, _, _, _, h => by simp [vertPlan] at h
+  | fuel + 1, extra, marked, ms, p, mk, hm, h => by
+    unfold vertPlan at h
+    split at h
+    · simp at h
+    · simp at h
+    · rename_i p' mk' hsz
+      have hs := sizePlan_spec ranges limit _ _ [] ms p' mk' (by simp) hsz
+      have hdone : ∀ b ∈ p', base b.id = false ∧ b.id ∉ marked ++ mk' := by
+        intro b hb
+        have := (hs.1 b hb)
+        simp only [Bool.or_eq_false_iff] at this
+        refine ⟨this.1.2, fun hin => ?_⟩
+        rcases List.mem_append.mp hin with hin | hin
+        · have := this.1.1
+          simp [hm b.id hin] at this
+        · exact this.2 hin
+      simp only [if_true] at h
+      split at h
+      · simp only [SizeOutcome.ok.injEq] at h
+        obtain ⟨rfl, rfl⟩ := h
+        exact hdone
+      · split at h
+        · simp only [SizeOutcome.ok.injEq] at h
+          obtain ⟨rfl, rfl⟩ := h
+          exact hdone
+        · refine vertPlan_spec ranges limit base fuel _ _ ms p mk ?_ h
+          intro i hi
+          simp only [List.mem_append] at hi ⊢
+          rcases hi with (hi | hi) | hi
+          · exact Or.inl (Or.inl (hm i hi))
+          · exact Or.inl (Or.inr hi)
+          · exact Or.inr hi
+
+/-- C30 "never includes blocks marked no-compact" for the planner as configured with vertical
+    compaction: nothing returned is marked, before or by the call. -/
+theorem C30_vert_no_marked (ranges : List Int) (limit : Int) (base : Excl) (ms p : List Meta) (mk : List Nat)
+    (h : vertPlan true ranges limit base (ms.length + 1) [] [] ms = .ok p mk) :
+    ∀ b ∈ p, base b.id = false ∧ b.id ∉ mk :=
+  vertPlan_spec ranges limit base _ [] [] ms p mk (by simp) h
+
+def vertWitness : List Meta :=
+  [ { id := 1, min := 0,  max := 20,  failed := false, tomb := 0, series := 0, isize := 10,  res := 300000 },
+    { id := 2, min := 20, max := 40,  failed := false, tomb := 0, series := 0, isize := 100, res := 300000 },
+    { id := 3, min := 25, max := 35,  failed := false, tomb := 0, series := 0, isize := 10,  res := 300000 },
+    { id := 4, min := 30, max := 38,  failed := false, tomb := 0, series := 0, isize := 10,  res := 300000 },
+    { id := 5, min := 60, max := 80,  failed := false, tomb := 0, series := 0, isize := 10,  res := 300000 },
+    { id := 6, min := 80, max := 100, failed := false, tomb := 0, series := 0, isize := 10,  res := 300000 } ]
+
+/-- The loop as originally written (`carry = false`) forgot the size filter's marks between rounds:
+    block 2 is marked in round 1 and planned in round 2. -/
+theorem C30_vert_forget_false :
+    ¬ (∀ (ranges : List Int) (limit : Int) (base : Excl) (ms p : List Meta) (mk : List Nat),
+        vertPlan false ranges limit base (ms.length + 1) [] [] ms = .ok p mk → ∀ b ∈ p, b.id ∉ mk) := by
+  intro h
+  have := h [20, 60] 115 (fun _ => false) vertWitness (vertWitness.take 2) [2, 3, 4] (by decide)
+    (vertWitness[1]) (by decide)
+  revert this
+  decide
+
+/-- on the same input the repaired loop returns no plan at all (block 1 alone is left) -/
+example : vertPlan true [20, 60] 115 (fun _ => false) (vertWitness.length + 1) [] [] vertWitness = .ok [] [2, 3, 4] := by
+  decide
+
 /-! ## The last clause as literally stated is false: F30 -/
 
 /-- the blocks a plan/apply run ends with, when it reaches a fixpoint -/
@@ -200,6 +377,190 @@ theorem C30_final_overlap_excluded :
     finalOf (iterate [100, 300] (fun i => i = 2) 5 7 f30Blocks) = some f30Blocks ∧ ¬ NonOverlapping f30Blocks := by
   decide
 
+
+/-! ## The last clause where it does hold: non-overlapping inputs -/
+
+/-- what the last clause promises of a group: no overlaps, blocks are proper intervals, none longer than `R` -/
+structure Good (R : Int) (ms : List Meta) : Prop where
+  nonOverlap : NonOverlapping ms
+  wf : ∀ b ∈ ms, b.min < b.max
+  short : ∀ b ∈ ms, b.max - b.min ≤ R
+
+theorem Good.sorted {R : Int} {ms : List Meta} (h : Good R ms) : SortedByMin ms := by
+  have hw := h.wf
+  have hn := h.nonOverlap
+  unfold SortedByMin
+  unfold NonOverlapping at hn
+  induction ms with
+  | nil => simp
+  | cons m ms ih =>
+    have hp := List.pairwise_cons.mp hn
+    refine List.pairwise_cons.mpr ⟨?_, ih ⟨hp.2, fun b hb => hw b (List.mem_cons_of_mem _ hb),
+      fun b hb => h.short b (List.mem_cons_of_mem _ hb)⟩ (fun b hb => hw b (List.mem_cons_of_mem _ hb)) hp.2⟩
+    intro b hb
+    have := hp.1 b hb
+    have := hw m (by simp)
+    omega
+
+theorem mem_maxRange : ∀ {ranges : List Int} {iv : Int}, iv ∈ ranges → iv ≤ maxRange ranges
+  | r :: rs, iv, h => by
+    unfold maxRange
+    rcases List.mem_cons.mp h with rfl | h
+    · split <;> omega
+    · have := mem_maxRange h
+      split <;> omega
+
+theorem insert_nonOverlapping (b : Meta) (hb : b.min < b.max) : ∀ (l : List Meta), NonOverlapping l →
+    (∀ c ∈ l, c.min < c.max) → (∀ c ∈ l, c.max ≤ b.min ∨ b.max ≤ c.min) → NonOverlapping (insertByMin b l)
+  | [], _, _, _ => by simp [insertByMin, NonOverlapping]
+  | m :: l, hn, hw, hd => by
+    have hp := List.pairwise_cons.mp hn
+    unfold insertByMin
+    by_cases hlt : b.min < m.min
+    · simp only [hlt, if_true]
+      refine List.pairwise_cons.mpr ⟨?_, hn⟩
+      have hm : b.max ≤ m.min := by
+        rcases hd m (by simp) with h | h
+        · have := hw m (by simp); omega
+        · exact h
+      intro x hx
+      rcases List.mem_cons.mp hx with rfl | hx
+      · exact hm
+      · have := hp.1 x hx
+        have := hw m (by simp)
+        omega
+    · simp only [hlt, if_false]
+      refine List.pairwise_cons.mpr ⟨?_, insert_nonOverlapping b hb l hp.2
+        (fun c hc => hw c (List.mem_cons_of_mem _ hc)) (fun c hc => hd c (List.mem_cons_of_mem _ hc))⟩
+      intro y hy
+      rcases mem_insertByMin.mp hy with rfl | hy
+      · rcases hd m (by simp) with h | h
+        · exact h
+        · omega
+      · exact hp.1 y hy
+
+/-- replacing a contiguous piece of a good group by its hull keeps the group good -/
+theorem apply_good (R : Int) (newId : Nat) (p ms pre suf : List Meta) (hms : ms = pre ++ p ++ suf)
+    (hne : p ≠ []) (hg : Good R ms) (hlen : (hull newId p).max - (hull newId p).min ≤ R) :
+    Good R (applyPlan newId p ms) := by
+  obtain ⟨m0, p', rfl⟩ : ∃ m0 p', p = m0 :: p' := by
+    cases p with
+    | nil => exact absurd rfl hne
+    | cons a l => exact ⟨a, l, rfl⟩
+  obtain ⟨⟨a, ha, hmin⟩, ⟨z, hz, hmax⟩, hlo, hhi⟩ := hull_spec newId m0 p'
+  have hpm : ∀ b ∈ m0 :: p', b ∈ ms := by
+    intro b hb; rw [hms]; simp only [List.mem_append]; exact Or.inl (Or.inr hb)
+  have hHwf : (hull newId (m0 :: p')).min < (hull newId (m0 :: p')).max := by
+    have := hg.wf m0 (hpm m0 (by simp)); omega
+  have hsub : (ms.filter (fun m => !((m0 :: p').any (fun q => q.id = m.id)))).Sublist ms := List.filter_sublist
+  have hno := hg.nonOverlap
+  unfold NonOverlapping at hno
+  rw [hms, List.pairwise_append, List.pairwise_append] at hno
+  obtain ⟨⟨_, _, hpre_p⟩, _, hall_suf⟩ := hno
+  have hdis : ∀ c ∈ ms.filter (fun m => !((m0 :: p').any (fun q => q.id = m.id))),
+      c.max ≤ (hull newId (m0 :: p')).min ∨ (hull newId (m0 :: p')).max ≤ c.min := by
+    intro c hc
+    obtain ⟨hcm, hck⟩ := List.mem_filter.mp hc
+    rw [hms] at hcm
+    simp only [List.mem_append] at hcm
+    rcases hcm with (hc1 | hc2) | hc3
+    · left; rw [hmin]; exact hpre_p c hc1 a ha
+    · exfalso
+      simp only [Bool.not_eq_true', List.any_eq_false, decide_eq_true_eq] at hck
+      exact hck c hc2 rfl
+    · right; rw [hmax]; exact hall_suf z (List.mem_append_right _ hz) c hc3
+  unfold applyPlan
+  refine ⟨?_, ?_, ?_⟩
+  · exact insert_nonOverlapping _ hHwf _ (List.Pairwise.sublist hsub hg.nonOverlap)
+      (fun c hc => hg.wf c (hsub.subset hc)) hdis
+  · intro b hb
+    rcases mem_insertByMin.mp hb with rfl | hb
+    · exact hHwf
+    · exact hg.wf b (hsub.subset hb)
+  · intro b hb
+    rcases mem_insertByMin.mp hb with rfl | hb
+    · exact hlen
+    · exact hg.short b (hsub.subset hb)
+
+/-- outside the overlap branch a non-empty plan is a contiguous piece of the group -/
+theorem plan_infix (ranges : List Int) (excl : Excl) (ms r : List Meta)
+    (hov : selectOverlapping (notExcluded excl ms) = []) (h : plan ranges excl ms = some r) (hne : r ≠ []) :
+    Infix r ms := by
+  have hsub := (plan_spec ranges excl ms r h).1
+  unfold plan at h
+  simp only [hov, List.isEmpty_nil, Bool.not_true, Bool.false_eq_true, if_false] at h
+  split at h
+  · simp at h
+  · split at h
+    · simp at h
+    · rename_i r' hr'
+      split at h
+      · simp only [Option.some.injEq] at h
+        subst h
+        exact infix_dropLast (selectMetas_infix ranges excl _ _ hr' hne)
+      · rcases tombScan_spec ranges _ r h with h0 | ⟨b, _, rfl, _, _⟩
+        · exact absurd h0 hne
+        · have hb : b ∈ ms := hsub.subset (by simp)
+          obtain ⟨s, t, hst⟩ := List.append_of_mem hb
+          exact ⟨s, t, by simp [hst]⟩
+
+theorem step_good (ranges : List Int) (excl : Excl) (newId : Nat) (ms p : List Meta)
+    (hpos : ∀ iv ∈ ranges.tail, 0 < iv) (hg : Good (maxRange ranges) ms)
+    (h : plan ranges excl ms = some p) (hne : p ≠ []) : Good (maxRange ranges) (applyPlan newId p ms) := by
+  have hov : selectOverlapping (notExcluded excl ms) = [] :=
+    selectOverlapping_nil_of_nonOverlapping _ (nonOverlapping_notExcluded excl ms hg.nonOverlap)
+  obtain ⟨pre, suf, hms⟩ := plan_infix ranges excl ms p hov h hne
+  refine apply_good _ newId p ms pre suf hms hne hg ?_
+  obtain ⟨m0, p', rfl⟩ : ∃ m0 p', p = m0 :: p' := by
+    cases p with
+    | nil => exact absurd rfl hne
+    | cons a l => exact ⟨a, l, rfl⟩
+  obtain ⟨⟨a, ha, hmin⟩, ⟨z, hz, hmax⟩, _, _⟩ := hull_spec newId m0 p'
+  rcases C30_size ranges excl ms _ h hne with h2 | ⟨b, hb, _, _⟩
+  · obtain ⟨iv, hiv, k, hk⟩ := C30_one_range ranges excl ms _ hpos hg.sorted hov h h2
+    have h1 := (hk a ha).1
+    have h3 := (hk z hz).2
+    have h4 := mem_maxRange (List.mem_of_mem_tail hiv)
+    omega
+  · simp only [List.cons.injEq] at hb
+    obtain ⟨rfl, rfl⟩ := hb
+    have hm : m0 ∈ ms := (plan_spec ranges excl ms _ h).1.subset (by simp)
+    have := hg.short m0 hm
+    simp [hull, minOf, maxOf]
+    exact this
+
+theorem iterate_good (ranges : List Int) (excl : Excl) (hpos : ∀ iv ∈ ranges.tail, 0 < iv) :
+    ∀ (fuel newId : Nat) (ms final : List Meta), Good (maxRange ranges) ms →
+      finalOf (iterate ranges excl fuel newId ms) = some final → Good (maxRange ranges) final
+  | 0, _, _, _, _, h => by simp [iterate, finalOf] at h
+  | fuel + 1, newId, ms, final, hg, h => by
+    unfold iterate at h
+    split at h
+    · simp [finalOf] at h
+    · simp only [finalOf, Option.some.injEq] at h
+      subst h; exact hg
+    · rename_i p hnil hplan
+      have hstep := step_good ranges excl newId ms p hpos hg hplan (by intro h0; exact hnil h0)
+      have ih := iterate_good ranges excl hpos fuel (newId + 1) (applyPlan newId p ms) final hstep
+      split at h
+      · rename_i ps f heq
+        simp only [finalOf, Option.some.injEq] at h
+        subst h
+        exact ih (by simp [heq, finalOf])
+      · simp [finalOf] at h
+      · simp [finalOf] at h
+
+/-- C30, last clause, where it holds: a group of non-overlapping proper blocks none of which is longer
+    than the largest range ends — whatever no-compact marks, failed compactions, tombstones, alignment —
+    with non-overlapping blocks no longer than the largest range. -/
+theorem C30_final_partial (ranges : List Int) (excl : Excl) (ms final : List Meta) (fuel newId : Nat)
+    (hpos : ∀ iv ∈ ranges.tail, 0 < iv)
+    (hno : NonOverlapping ms) (hwf : ∀ b ∈ ms, b.min < b.max) (hshort : ∀ b ∈ ms, b.max - b.min ≤ maxRange ranges)
+    (h : finalOf (iterate ranges excl fuel newId ms) = some final) :
+    NonOverlapping final ∧ ∀ b ∈ final, b.max - b.min ≤ maxRange ranges := by
+  have := iterate_good ranges excl hpos fuel newId ms final ⟨hno, hwf, hshort⟩ h
+  exact ⟨this.nonOverlap, this.short⟩
+
 /-! non-vacuity -/
 example : plan [20, 60, 180] (fun _ => false)
     [ { id := 1, min := 0,  max := 20, failed := false, tomb := 0, series := 0, isize := 1, res := 0 },
@@ -218,6 +579,16 @@ example : plan [20, 60] (fun _ => false)
     [ { id := 1, min := 0,  max := 60, failed := false, tomb := 9, series := 100, isize := 1, res := 0 },
       { id := 2, min := 60, max := 80, failed := false, tomb := 0, series := 0, isize := 1, res := 0 } ]
     = some [ { id := 1, min := 0,  max := 60, failed := false, tomb := 9, series := 100, isize := 1, res := 0 } ] := by decide
+
+/-! non-vacuity of the partial theorem: a good group that takes two rounds (a range plan, then nothing) -/
+example : let ms : List Meta :=
+    [ { id := 1, min := -40, max := -20, failed := false, tomb := 0, series := 0, isize := 1, res := 0 },
+      { id := 2, min := -20, max := 0,  failed := false, tomb := 0, series := 0, isize := 1, res := 0 },
+      { id := 3, min := 0,   max := 20, failed := false, tomb := 0, series := 0, isize := 1, res := 0 },
+      { id := 4, min := 60,  max := 80, failed := false, tomb := 0, series := 0, isize := 1, res := 0 } ]
+    NonOverlapping ms ∧ (∀ b ∈ ms, b.min < b.max) ∧ (∀ b ∈ ms, b.max - b.min ≤ maxRange [20, 60]) ∧
+    (finalOf (iterate [20, 60] (fun _ => false) 9 7 ms)).map (fun f => f.map (fun b => (b.id, b.min, b.max)))
+      = some [(7, -40, 0), (3, 0, 20), (4, 60, 80)] := by decide
 
 /-! ## Regenerated facts: the conditions of planner.go the model transliterates -/
 
